@@ -2,9 +2,11 @@ package symex
 
 import (
 	"fmt"
+	"math"
 	"go/types"
 	"strings"
 
+	"github.com/lucasb-eyer/go-colorful"
 	"golang.org/x/tools/go/ssa"
 	"verif/engine/smt"
 )
@@ -222,6 +224,10 @@ func intrinsic(ex *Exec, st *State, site ssa.Instruction, fn *ssa.Function, args
 		}
 		ex.protected[obj] = mu
 		return nil
+	case "RegisterLED":
+		// RegisterLED(dev *openrgb.Device, capture *LedCapture, cancel func())
+		ex.LedDevice, ex.LedCapture, ex.LedCancel = args[0], args[1], args[2]
+		return nil
 	case "Attempts":
 		return bv64(1)
 	case "Jitter":
@@ -418,13 +424,14 @@ func registerStubs(ex *Exec) {
 	}
 	S["time.NewTimer"] = stubZero
 	S["github.com/realbucksavage/openrgb-go.Connect"] = func(ex *Exec, st *State, site ssa.Instruction, fn *ssa.Function, args []Value) Value {
-		if ex.OpenRGB != nil {
-			return ex.OpenRGB(ex, st, site, fn, args)
+		if ex.Flags["led"] {
+			return &TupleV{E: []Value{ex.newOpaque("openrgbClient"), Nil}}
 		}
 		// no server: the connection attempt fails (LED feedback connected is the subject of C17's harness)
 		return &TupleV{E: []Value{Nil, &IfaceV{T: nil, V: ex.newOpaque("error")}}}
 	}
 	registerTomlStubs(ex)
+	registerLedStubs(ex)
 	registerSyncMapStubs(ex)
 	registerFSStubs(ex)
 	registerStringStubs(ex)
@@ -739,5 +746,121 @@ func registerSyncMapStubs(ex *Exec) {
 		v, ok := ex.mapLookup(st, &MapV{Obj: id}, args[1], mt)
 		ex.guarded(st, smt.Not(ok), func(st *State) { ex.mapUpdate(st, site, &MapV{Obj: id}, args[1], args[2]) })
 		return &TupleV{E: []Value{mergeV(ok, v, args[2]), ok}}
+	}
+}
+
+// uf returns fresh float64 results for an external pure function; the same argument terms give the same results
+// (syntactic congruence, enough because code and oracle build identical argument terms).
+func (ex *Exec) uf(name string, args []Value, nres int) []Value {
+	key := name
+	for _, a := range args {
+		key += ":" + keyIdent(a)
+	}
+	if ex.ufMemo == nil {
+		ex.ufMemo = map[string][]Value{}
+	}
+	if r, ok := ex.ufMemo[key]; ok {
+		return r
+	}
+	r := make([]Value, nres)
+	for i := range r {
+		ex.opaqueSeq++
+		r[i] = smt.FFromBits(ex.NondetVar(fmt.Sprintf("env_uf_%s_%d", name, ex.opaqueSeq), smt.BV(64)))
+	}
+	ex.ufMemo[key] = r
+	return r
+}
+
+func registerLedStubs(ex *Exec) {
+	S := ex.Stubs
+	// colour-space functions: evaluated with the real library on concrete arguments, uninterpreted otherwise
+	concF := func(vs []Value) ([]float64, bool) {
+		out := make([]float64, len(vs))
+		for i, v := range vs {
+			t, ok := v.(*smt.Term)
+			if !ok || !t.IsConst() {
+				return nil, false
+			}
+			out[i] = t.Float()
+		}
+		return out, true
+	}
+	// split evaluates f on every combination of the constant leaves of ite-tree arguments
+	var split func(name string, args []Value, nres int, f func([]float64) []float64, depth int) []Value
+	split = func(name string, args []Value, nres int, f func([]float64) []float64, depth int) []Value {
+		if fl, ok := concF(args); ok {
+			r := f(fl)
+			out := make([]Value, len(r))
+			for i, x := range r {
+				out[i] = smt.FConst(x)
+			}
+			return out
+		}
+		if depth < 40 {
+			for _, a := range args {
+				t, ok := a.(*smt.Term)
+				if ok && t.Op == smt.OIte {
+					// split jointly: every argument guarded by the same condition follows the same branch
+					a1 := append([]Value(nil), args...)
+					a2 := append([]Value(nil), args...)
+					for j, b := range args {
+						if u, ok := b.(*smt.Term); ok && u.Op == smt.OIte && u.A[0] == t.A[0] {
+							a1[j], a2[j] = u.A[1], u.A[2]
+						}
+					}
+					r1 := split(name, a1, nres, f, depth+1)
+					r2 := split(name, a2, nres, f, depth+1)
+					out := make([]Value, nres)
+					for k := range out {
+						out[k] = smt.Ite(t.A[0], r1[k].(*smt.Term), r2[k].(*smt.Term))
+					}
+					return out
+				}
+			}
+		}
+		return ex.uf(name, args, nres)
+	}
+	S["github.com/lucasb-eyer/go-colorful.Hsv"] = func(ex *Exec, st *State, site ssa.Instruction, fn *ssa.Function, args []Value) Value {
+		return &StructV{F: split("colorful.Hsv", args, 3, func(f []float64) []float64 {
+			c := colorful.Hsv(f[0], f[1], f[2])
+			return []float64{c.R, c.G, c.B}
+		}, 0)}
+	}
+	S["(github.com/lucasb-eyer/go-colorful.Color).Hsv"] = func(ex *Exec, st *State, site ssa.Instruction, fn *ssa.Function, args []Value) Value {
+		return &TupleV{E: split("Color.Hsv", args[0].(*StructV).F, 3, func(f []float64) []float64 {
+			h, sv, v := colorful.Color{R: f[0], G: f[1], B: f[2]}.Hsv()
+			return []float64{h, sv, v}
+		}, 0)}
+	}
+	S["math.Mod"] = func(ex *Exec, st *State, site ssa.Instruction, fn *ssa.Function, args []Value) Value {
+		return split("math.Mod", args, 1, func(f []float64) []float64 { return []float64{math.Mod(f[0], f[1])} }, 0)[0]
+	}
+	// the controller the (stubbed) OpenRGB server reports: supplied by the harness
+	S["flag:led:github.com/gethiox/HIDI/internal/pkg/midi/device.findController"] = func(ex *Exec, st *State, site ssa.Instruction, fn *ssa.Function, args []Value) Value {
+		dev := ex.load(st, site, ex.LedDevice.(*PtrV))
+		return &TupleV{E: []Value{dev, bv64(0), Nil}}
+	}
+	S["(*github.com/realbucksavage/openrgb-go.Client).UpdateLEDs"] = func(ex *Exec, st *State, site ssa.Instruction, fn *ssa.Function, args []Value) Value {
+		// record the frame in the harness's capture {N int; Frames [4][]Color}; end the loop after the first frame
+		cp := ex.LedCapture.(*PtrV)
+		cap := ex.load(st, site, cp).(*StructV)
+		n := cap.F[0].(*smt.Term)
+		if !n.IsConst() {
+			panic(unsupported("LED capture with a symbolic frame count"))
+		}
+		colors := args[2].(*SliceV)
+		el := ex.sliceElems(st, colors)
+		id := ex.newObj(st, &ArrayV{E: append([]Value(nil), el...)})
+		snap := &SliceV{Obj: id, Len: colors.Len, Cap: len(el), MaxLen: len(el)}
+		frames := cap.F[1].(*ArrayV)
+		e := append([]Value(nil), frames.E...)
+		if int(n.V) < len(e) {
+			e[n.V] = snap
+		}
+		st.heap[cp.Obj] = ex.setPath(ex.get(st, cp.Obj), cp.Path, &StructV{F: []Value{bv64(int64(n.V + 1)), &ArrayV{E: e}, snap}})
+		if n.V == 0 && ex.LedCancel != nil {
+			ex.applyFuncValue(st, site, ex.LedCancel, nil, 1)
+		}
+		return Nil
 	}
 }
